@@ -100,9 +100,10 @@ def c12_2(ctx):
 def c12_3(ctx):
     out = []
     mod, fn = rl.get(ctx, "taproot:ControlBlock.serialize")
+    from sa.layout import alpha_terms
     t = WriterExec(ctx.repo, mod, fn, max_inline=0).run()
-    txt = fmt_terms(t or [])
-    if txt == "int1LE(self.tapleaf_version + self.parity) ‖ self.internal_pubkey.xonly ‖ repeat<self.hashes>[bytes(h)]":
+    txt = fmt_terms(alpha_terms(t or []))
+    if txt == "int1LE(self.tapleaf_version + self.parity) ‖ self.internal_pubkey.xonly ‖ repeat<self.hashes>[bytes(<elem>)]":
         out.append(ctx.ok("taproot:ControlBlock.serialize", "(version|parity)(1) ‖ internal key x(32) ‖ 32·m path hashes", fn, mod, key="cb-ser"))
     else:
         out.append(ctx.bad("taproot:ControlBlock.serialize", "layout %s, BIP341: (leaf version | parity) ‖ internal key ‖ path hashes" % txt, fn, mod, key="cb-ser"))
@@ -142,14 +143,24 @@ def c12_3(ctx):
         ivar = [n.id for n in ast.walk(lo) if isinstance(n, ast.Name)]
         if len(set(ivar)) == 1:
             iv = ivar[0]
-            vals = [(Folder(ctx.repo, mod.name, {iv: i}).fold(lo), Folder(ctx.repo, mod.name, {iv: i}).fold(hi)) for i in (0, 1, 2)]
+            # the values the index variable takes: range(m) -> 0, 1, 2 ; range(a, stop, step) -> a, a+step, a+2·step
+            probe = (0, 1, 2)
+            stepped = False
+            for lp_ in ast.walk(fn):
+                tg_, it_ = (lp_.target, lp_.iter) if isinstance(lp_, (ast.For, ast.comprehension)) else (None, None)
+                if isinstance(tg_, ast.Name) and tg_.id == iv and isinstance(it_, ast.Call) and call_name(it_) == "range" and len(it_.args) == 3:
+                    a0, st0 = f.fold(it_.args[0]), f.fold(it_.args[2])
+                    if isinstance(a0, int) and isinstance(st0, int):
+                        probe = (a0, a0 + st0, a0 + 2 * st0)
+                        stepped = (a0, st0) == (33, 32) and ast.unparse(it_.args[1]) in (lenvar or "", "len(%s)" % b)
+            vals = [(Folder(ctx.repo, mod.name, {iv: i}).fold(lo), Folder(ctx.repo, mod.name, {iv: i}).fold(hi)) for i in probe]
             contiguous = vals[0][0] == 33 and all(v[1] - v[0] == 32 for v in vals) and vals[0][1] == vals[1][0] and vals[1][1] == vals[2][0]
             good = good and contiguous
             detail = "hash slices %s" % vals
         else:
             good = False
     # m = (len - 33) // 32
-    m_ok = "- 33) // 32" in src
+    m_ok = "- 33) // 32" in src or (comp and len(set(ivar)) == 1 and stepped)
     if good and m_ok:
         out.append(ctx.ok(spec, "reader slices tile the input: [0], [1:33], then m = (len-33)//32 contiguous 32-byte hashes from offset 33", fn, mod, key="cb-tiling"))
     else:
